@@ -99,7 +99,8 @@ pub fn gen(ctx: &Ctx) {
     let toks: [&[u8]; 14] = [b"chunked", b"CHUNKED", b"Chunked", b"gzip", b"close", b"Close", b"keep-alive", b"", b"chunkedx", b"xclose",
                              b"chun ked", b"identity", b"upgrade", b"clos\xc3\xa9"];
     let pads: [&[u8]; 6] = [b"", b" ", b"\t", b"  ", b" \t ", b""];
-    let cls: [&[u8]; 12] = [b"0", b"5", b" 12", b"12 ", b"+5", b"-1", b"5x", b"", b"18446744073709551615", b"18446744073709551616", b"1 2", b"007"];
+    let cls: [&[u8]; 16] = [b"0", b"5", b" 12", b"12 ", b"+5", b"-1", b"5x", b"", b"18446744073709551615", b"18446744073709551616", b"1 2", b"007",
+                            b"000000000000000000042", b"00000000000000000000000000000000000000018446744073709551615", b"000000000000000000000", b"00000000000000000000018446744073709551616"];
     let n = if ctx.thorough { 200000 } else { 20000 };
     for _ in 0..n {
         let len = rng.range(5, 40) as usize;
